@@ -10,7 +10,11 @@ Specification-side definitions and helper lemmas for C20 (`Props/C20.lean` holds
     B. a `TSB` that ticks while one of its collection fields does not tick and the empty delta of that
        field would have an effect on it (a `TSS`/`TSD` field that was never valid);
     C. a dictionary key whose child is not valid (never ticked) — such a key is invisible to `capture`.
-  A cycle without a tick is `m = clear pre`, which `Tick` admits at every position.
+    D. (dynamic lists) a list that grew in the cycle (`at(i)` past the end) without its new LAST child ticking:
+       the delta is a map without a length, growth that no entry witnesses cannot be re-created.
+  A cycle without a tick is `m = clear pre`, which `Tick` admits at every position.  A dynamic list may grow
+  past its end leaving any number of never-ticked placeholders before the new last child (growth that skips
+  indices), and the first tick of a list may be at any index.
 * `GoodHist`, `recordHist`, `tickOf`, `trim`, `replayStates` — histories and the two operators as list functions.
 -/
 namespace HgVerif.Delta
@@ -30,6 +34,7 @@ def All2 {σ : Type} (R : σ → σ → Prop) : List σ → List σ → Prop
 def wfShape : Shape → Bool
   | .tsd _ _ v => !isFields v && wfShape v
   | .tsl e _ => !isFields e && wfShape e
+  | .tsld e => !isFields e && wfShape e
   | .tsb fs => isFields fs && wfShape fs
   | .bcons f r => !isFields f && wfShape f && isFields r && wfShape r
   | _ => true
@@ -66,6 +71,15 @@ def Inert : (s : Shape) → St s → St s → Prop
       (isCollection f = true → modified f m.1 = false → hasEffect f pre.1 (emptyDelta f) = false) ∧ Inert r pre.2 m.2
   | _, _, _ => True
 
+/-- One cycle of a DYNAMIC list: the children that existed tick (or not) in place, the list never shrinks, and
+    the children created in this cycle started from `freshC` - a skipped index is still `freshC` with no mark
+    (`T freshC c` without `md c`), and the new LAST child is a ticking one (situation D excluded). -/
+def DynTick {σ : Type} (T : σ → σ → Prop) (freshC : σ) (md : σ → Bool) : List σ → List σ → Prop
+  | [], [] => True
+  | p :: ps, c :: cs => T p c ∧ DynTick T freshC md ps cs
+  | [], c :: cs => T freshC c ∧ (cs = [] → md c = true) ∧ DynTick T freshC md [] cs
+  | _ :: _, [] => False
+
 /-- replayable tick (see the header) -/
 def Tick : (s : Shape) → St s → St s → Prop
   | .ts k, pre, m => (m.mod = true ∧ m.val.isSome = true) ∨ m = clear (.ts k) pre
@@ -83,6 +97,7 @@ def Tick : (s : Shape) → St s → St s → Prop
          m.slots.any (slotTicked (modified v) (valid v)) = true ∨
          pre.valid = false))
   | .tsl e _, pre, m => All2 (Tick e) pre m
+  | .tsld e, pre, m => DynTick (Tick e) (fresh e) (modified e) pre m
   | .tsb fs, pre, m => Tick fs pre m ∧ (modified fs m = true → Inert fs pre m)
   | .bnil, _, _ => True
   | .bcons f r, pre, m => Tick f pre.1 m.1 ∧ Tick r pre.2 m.2
@@ -101,6 +116,11 @@ theorem modified_clear : ∀ (s : Shape) (st : St s), modified s (clear s st) = 
   | .tss _ _, _ => rfl
   | .tsd _ _ _, _ => rfl
   | .tsl e _, st => by
+      simp only [modified, clear]
+      induction st with
+      | nil => rfl
+      | cons c cs ih => simp [List.any_cons, modified_clear e c, ih]
+  | .tsld e, st => by
       simp only [modified, clear]
       induction st with
       | nil => rfl
@@ -124,6 +144,41 @@ theorem listApply_none {σ δ : Type} (app : σ → δ → σ) (clr : σ → σ)
         simp only [listApply, List.map_cons]
         rw [ih ods h]
 
+theorem growApply_none {σ δ : Type} (freshC : σ) (app : σ → δ → σ) (d : List (Option δ))
+    (h : d.any Option.isSome = false) : growApply freshC app d = [] := by
+  cases d with
+  | nil => rfl
+  | cons od ods => simp only [growApply, h, Bool.false_eq_true, ↓reduceIte]
+
+theorem dynApply_none {σ δ : Type} (freshC : σ) (app : σ → δ → σ) (clr : σ → σ) (st : List σ) (d : List (Option δ))
+    (h : d.any Option.isSome = false) : dynApply freshC app clr st d = st.map clr := by
+  induction st generalizing d with
+  | nil => simp only [dynApply, growApply_none freshC app d h, List.map_nil]
+  | cons c cs ih =>
+    cases d with
+    | nil => simp only [dynApply, List.map_cons]; rw [ih [] rfl]
+    | cons od ods =>
+      cases od with
+      | some x => simp at h
+      | none =>
+        simp only [List.any_cons, Option.isSome_none, Bool.false_or] at h
+        simp only [dynApply, List.map_cons]
+        rw [ih ods h]
+
+/-- a never-ticked endpoint carries no marks -/
+theorem clear_fresh : ∀ (s : Shape), clear s (fresh s) = fresh s
+  | .ts _ => rfl
+  | .signal => rfl
+  | .tsw _ _ => rfl
+  | .tss _ u => by simp [clear, fresh, falses]; rfl
+  | .tsd _ u _ => by simp [clear, fresh, falses]; rfl
+  | .tsl e n => by
+      simp only [clear, fresh, List.map_replicate, clear_fresh e]; rfl
+  | .tsld _ => rfl
+  | .tsb fs => clear_fresh fs
+  | .bnil => rfl
+  | .bcons f r => by simp only [clear, fresh, clear_fresh f, clear_fresh r]; rfl
+
 /-- the gate is built into `apply`: a delta without effect leaves the output untouched (no tick) -/
 theorem apply_noEffect : ∀ (s : Shape) (st : St s) (d : Dl s), hasEffect s st d = false → apply s st d = clear s st
   | .ts _, _, _, h => by simp [hasEffect] at h
@@ -135,6 +190,10 @@ theorem apply_noEffect : ∀ (s : Shape) (st : St s) (d : Dl s), hasEffect s st 
       simp only [hasEffect] at h
       simp only [apply, clear]
       exact listApply_none _ _ st d h
+  | .tsld e, st, d, h => by
+      simp only [hasEffect] at h
+      simp only [apply, clear]
+      exact dynApply_none _ _ _ st d h
   | .tsb fs, st, d, h => apply_noEffect fs st d h
   | .bnil, _, _, _ => rfl
   | .bcons f r, st, d, h => by
@@ -155,6 +214,58 @@ theorem pushWin_getLast (p : Nat) (hp : 1 ≤ p) (w : List Nat) (x : Nat) : (pus
   split
   · omega
   · simp
+
+/-- a dynamic list that grew has a ticking child -/
+theorem dynTick_grown_any {σ : Type} (T : σ → σ → Prop) (freshC : σ) (md : σ → Bool) :
+    ∀ (c : σ) (cs : List σ), DynTick T freshC md [] (c :: cs) → (c :: cs).any md = true
+  | c, [], h => by
+      simp only [DynTick] at h
+      simp [h.2.1 trivial]
+  | c, c' :: cs, h => by
+      simp only [DynTick] at h
+      have := dynTick_grown_any T freshC md c' cs h.2.2
+      simp only [List.any_cons, Bool.or_eq_true] at this ⊢
+      exact Or.inr this
+
+theorem dynTick_unmodified {σ : Type} (T : σ → σ → Prop) (freshC : σ) (md : σ → Bool) (clr : σ → σ)
+    (hun : ∀ p c, T p c → md c = false → c = clr p) :
+    ∀ (ps cs : List σ), DynTick T freshC md ps cs → cs.any md = false → cs = ps.map clr
+  | [], [], _, _ => rfl
+  | [], c :: cs, h, hm => by
+      rw [dynTick_grown_any T freshC md c cs h] at hm; cases hm
+  | p :: ps, c :: cs, h, hm => by
+      simp only [DynTick] at h
+      simp only [List.any_cons, Bool.or_eq_false_iff] at hm
+      simp only [List.map_cons]
+      rw [hun p c h.1 hm.1, ← dynTick_unmodified T freshC md clr hun ps cs h.2 hm.2]
+  | _ :: _, [], h, _ => by simp [DynTick] at h
+
+/-- every child of a dynamic list after a tick is the result of a tick (from its old state or from fresh) -/
+theorem dynTick_mem {σ : Type} (T : σ → σ → Prop) (freshC : σ) (md : σ → Bool) :
+    ∀ (ps cs : List σ), DynTick T freshC md ps cs → ∀ c ∈ cs, ∃ p, T p c
+  | [], [], _, c, hc => by simp at hc
+  | [], c' :: cs, h, c, hc => by
+      simp only [DynTick] at h
+      simp only [List.mem_cons] at hc
+      rcases hc with rfl | hc
+      · exact ⟨freshC, h.1⟩
+      · exact dynTick_mem T freshC md [] cs h.2.2 c hc
+  | p :: ps, c' :: cs, h, c, hc => by
+      simp only [DynTick] at h
+      simp only [List.mem_cons] at hc
+      rcases hc with rfl | hc
+      · exact ⟨p, h.1⟩
+      · exact dynTick_mem T freshC md ps cs h.2 c hc
+  | _ :: _, [], h, _, _ => by simp [DynTick] at h
+
+theorem any_valid_of_any_modified {σ : Type} (md vld : σ → Bool) :
+    ∀ (cs : List σ), (∀ c ∈ cs, md c = true → vld c = true) → cs.any md = true → cs.any vld = true
+  | [], _, h => by simp at h
+  | c :: cs, hv, h => by
+      simp only [List.any_cons, Bool.or_eq_true] at h ⊢
+      rcases h with h | h
+      · exact Or.inl (hv c List.mem_cons_self h)
+      · exact Or.inr (any_valid_of_any_modified md vld cs (fun x hx => hv x (List.mem_cons_of_mem _ hx)) h)
 
 /-- a position that did not tick is the old one with this cycle's marks empty -/
 theorem tick_unmodified : ∀ (s : Shape) (pre m : St s), Tick s pre m → modified s m = false → m = clear s pre
@@ -194,6 +305,11 @@ theorem tick_unmodified : ∀ (s : Shape) (pre m : St s), Tick s pre m → modif
           simp only [List.any_cons, Bool.or_eq_false_iff] at hm
           simp only [List.map_cons]
           rw [tick_unmodified e p c h.1 hm.1, ← ih cs h.2 hm.2]
+  | .tsld e, pre, m, h, hm => by
+      simp only [Tick] at h
+      simp only [modified] at hm
+      simp only [clear]
+      exact dynTick_unmodified (Tick e) (fresh e) (modified e) (clear e) (tick_unmodified e) pre m h hm
   | .tsb fs, pre, m, h, hm => tick_unmodified fs pre m h.1 hm
   | .bnil, _, _, _, _ => rfl
   | .bcons f r, pre, m, h, hm => by
@@ -243,6 +359,13 @@ theorem tick_valid : ∀ (s : Shape) (pre m : St s), Tick s pre m → modified s
           rcases hm with hm | hm
           · exact Or.inl (tick_valid e p c h.1 hm)
           · exact Or.inr (ih cs h.2 hm)
+  | .tsld e, pre, m, h, hm => by
+      simp only [Tick] at h
+      simp only [modified] at hm
+      simp only [valid]
+      refine any_valid_of_any_modified (modified e) (valid e) m (fun c hc hmc => ?_) hm
+      obtain ⟨p, hp⟩ := dynTick_mem (Tick e) (fresh e) (modified e) pre m h c hc
+      exact tick_valid e p c hp hmc
   | .tsb fs, pre, m, h, hm => tick_valid fs pre m h.1 hm
   | .bnil, _, _, _, hm => by simp [modified] at hm
   | .bcons f r, pre, m, h, hm => by
@@ -261,6 +384,13 @@ theorem tick_clear : ∀ (s : Shape) (st : St s), Tick s st (clear s st)
   | .tsd _ _ _, _ => Or.inl rfl
   | .tsl e _, st => by
       have key : ∀ l : List (St e), All2 (Tick e) l (l.map (clear e)) := by
+        intro l
+        induction l with
+        | nil => trivial
+        | cons c cs ih => exact ⟨tick_clear e c, ih⟩
+      exact key st
+  | .tsld e, st => by
+      have key : ∀ l : List (St e), DynTick (Tick e) (fresh e) (modified e) l (l.map (clear e)) := by
         intro l
         induction l with
         | nil => trivial
@@ -397,6 +527,160 @@ theorem listApply_capture
 
 end Dict
 
+section Dyn
+variable {σ δ : Type} {freshC : σ} {app : σ → δ → σ} {clr : σ → σ} {vld md : σ → Bool} {cap : σ → δ}
+  {T : σ → σ → Prop}
+
+/-! dynamic lists: the delta is a map, trailing positions without an entry do not exist -/
+
+theorem trimNone_any : ∀ (d : List (Option δ)), (trimNone d).any Option.isSome = d.any Option.isSome
+  | [] => rfl
+  | x :: r => by
+      have ih := trimNone_any r
+      simp only [trimNone]
+      cases x with
+      | some v =>
+        cases ht : trimNone r <;> simp
+      | none =>
+        cases ht : trimNone r with
+        | nil => rw [ht] at ih; simp [← ih]
+        | cons y ys => rw [ht] at ih; simp [← ih]
+
+theorem trimNone_eq_nil : ∀ (d : List (Option δ)), d.any Option.isSome = false → trimNone d = []
+  | [], _ => rfl
+  | x :: r, h => by
+      simp only [List.any_cons, Bool.or_eq_false_iff] at h
+      cases x with
+      | some v => simp at h
+      | none => simp only [trimNone, trimNone_eq_nil r h.2]
+
+theorem growApply_trim : ∀ (d : List (Option δ)), growApply freshC app (trimNone d) = growApply freshC app d
+  | [] => rfl
+  | x :: r => by
+      have ih := growApply_trim r
+      cases hany : (x :: r).any Option.isSome with
+      | false =>
+        rw [trimNone_eq_nil (x :: r) hany, growApply_none freshC app (x :: r) hany]; rfl
+      | true =>
+        have hcons : trimNone (x :: r) = x :: trimNone r := by
+          simp only [trimNone]
+          cases x with
+          | some v => cases trimNone r <;> rfl
+          | none =>
+            simp only [List.any_cons, Option.isSome_none, Bool.false_or] at hany
+            have := trimNone_any r
+            rw [hany] at this
+            cases ht : trimNone r with
+            | nil => rw [ht] at this; simp at this
+            | cons y ys => rfl
+        rw [hcons]
+        have hany' : (x :: trimNone r).any Option.isSome = true := by
+          simp only [List.any_cons, trimNone_any r]
+          simpa using hany
+        simp only [growApply, hany, hany', ↓reduceIte, ih]
+
+theorem dynApply_trim : ∀ (ps : List σ) (d : List (Option δ)),
+    dynApply freshC app clr ps (trimNone d) = dynApply freshC app clr ps d
+  | [], d => by simp only [dynApply, growApply_trim]
+  | p :: ps, [] => rfl
+  | p :: ps, x :: r => by
+      have ih := dynApply_trim ps r
+      cases ht : trimNone r with
+      | nil =>
+        cases x with
+        | some v =>
+          have : trimNone (some v :: r) = some v :: trimNone r := by simp [trimNone]
+          rw [this]
+          simp only [dynApply, ih]
+        | none =>
+          have : trimNone (none :: r) = [] := by simp [trimNone, ht]
+          rw [this]
+          rw [ht] at ih
+          simp only [dynApply, ih]
+      | cons y ys =>
+        have : trimNone (x :: r) = x :: trimNone r := by
+          simp only [trimNone, ht]
+        rw [this]
+        simp only [dynApply, ih]
+
+theorem dynTick_captured_any
+    (hval : ∀ p c, T p c → md c = true → vld c = true) :
+    ∀ (ps cs : List σ), DynTick T freshC md ps cs → cs.any md = true →
+      (cs.map fun c => if md c && vld c then some (cap c) else none).any Option.isSome = true
+  | [], [], _, h => by simp at h
+  | [], c :: cs, ht, h => by
+      simp only [DynTick] at ht
+      simp only [List.map_cons, List.any_cons, Bool.or_eq_true]
+      cases hmd : md c with
+      | true => left; simp [hval _ _ ht.1 hmd]
+      | false =>
+        right
+        cases cs with
+        | nil => rw [ht.2.1 rfl] at hmd; cases hmd
+        | cons c' cs' =>
+          exact dynTick_captured_any hval [] (c' :: cs') ht.2.2 (dynTick_grown_any T freshC md c' cs' ht.2.2)
+  | p :: ps, c :: cs, ht, h => by
+      simp only [DynTick] at ht
+      simp only [List.any_cons, Bool.or_eq_true] at h
+      simp only [List.map_cons, List.any_cons, Bool.or_eq_true]
+      rcases h with h | h
+      · left; simp [h, hval _ _ ht.1 h]
+      · right; exact dynTick_captured_any hval ps cs ht.2 h
+  | _ :: _, [], ht, _ => by simp [DynTick] at ht
+
+/-- the children created past the end are re-created from the entries: a skipped index stays `freshC`, the
+    entry of a new child is applied to `freshC`, and the last entry is the new last child -/
+theorem growApply_capture
+    (hstep : ∀ p c, T p c → md c = true → vld c = true → app p (cap c) = c)
+    (hun : ∀ p c, T p c → md c = false → c = clr p)
+    (hval : ∀ p c, T p c → md c = true → vld c = true)
+    (hcf : clr freshC = freshC) :
+    ∀ (cs : List σ), DynTick T freshC md [] cs →
+      growApply freshC app (cs.map fun c => if md c && vld c then some (cap c) else none) = cs
+  | [], _ => rfl
+  | c :: cs, h => by
+      have hany := dynTick_captured_any (cap := cap) hval [] (c :: cs) h (dynTick_grown_any T freshC md c cs h)
+      simp only [DynTick] at h
+      have ih := growApply_capture hstep hun hval hcf cs h.2.2
+      simp only [List.map_cons] at hany ⊢
+      simp only [growApply, hany, ↓reduceIte, ih]
+      cases hmd : md c with
+      | true =>
+        have hv := hval _ _ h.1 hmd
+        simp only [hv, Bool.and_self, ↓reduceIte, hstep _ _ h.1 hmd hv]
+      | false =>
+        have := hun _ _ h.1 hmd
+        simp only [Bool.false_and, Bool.false_eq_true, ↓reduceIte]
+        rw [this, hcf]
+
+theorem dynApply_capture
+    (hstep : ∀ p c, T p c → md c = true → vld c = true → app p (cap c) = c)
+    (hun : ∀ p c, T p c → md c = false → c = clr p)
+    (hval : ∀ p c, T p c → md c = true → vld c = true)
+    (hcf : clr freshC = freshC) :
+    ∀ (ps cs : List σ), DynTick T freshC md ps cs →
+      dynApply freshC app clr ps (trimNone (cs.map fun c => if md c && vld c then some (cap c) else none)) = cs := by
+  intro ps cs h
+  rw [dynApply_trim]
+  induction ps generalizing cs with
+  | nil =>
+    simp only [dynApply]
+    exact growApply_capture hstep hun hval hcf cs h
+  | cons p ps ih =>
+    cases cs with
+    | nil => simp [DynTick] at h
+    | cons c cs =>
+      simp only [DynTick] at h
+      have ih' := ih cs h.2
+      cases hmd : md c with
+      | true =>
+        have hv := hval _ _ h.1 hmd
+        simp only [List.map_cons, dynApply, hmd, hv, Bool.and_self, ↓reduceIte, hstep _ _ h.1 hmd hv, ih']
+      | false =>
+        simp only [List.map_cons, dynApply, hmd, Bool.false_and, Bool.false_eq_true, ↓reduceIte, ← hun _ _ h.1 hmd, ih']
+
+end Dyn
+
 /-- The gate lets every replayable tick of a `TSS`/`TSD` through. -/
 theorem tss_gate (k : Bool) (u : Nat) (pre m : St (.tss k u))
     (h4 : m.added.any id = true ∨ m.removed.any id = true ∨ pre.valid = false) :
@@ -476,6 +760,13 @@ theorem apply_capture_aux : ∀ (s : Shape), wfShape s = true →
       simp only [apply, capture]
       exact listApply_capture (apply e) (clear e) (valid e) (modified e) (capture e) (Tick e)
         (fun p c ht hmd _ => ihe p c ht hmd) (tick_unmodified e) (tick_valid e) pre m h
+  | .tsld e, hw => by
+      simp only [wfShape, Bool.and_eq_true, Bool.not_eq_true'] at hw
+      have ihe := (apply_capture_aux e hw.2).1 hw.1
+      refine ⟨fun _ pre m h hm => ?_, fun hf => by cases hf⟩
+      simp only [apply, capture]
+      exact dynApply_capture (T := Tick e) (fun p c ht hmd _ => ihe p c ht hmd) (tick_unmodified e) (tick_valid e)
+        (clear_fresh e) pre m h
   | .tsb fs, hw => by
       simp only [wfShape, Bool.and_eq_true] at hw
       have ih := (apply_capture_aux fs hw.2).2 hw.1
@@ -553,6 +844,9 @@ theorem tick_hasEffect_aux : ∀ (s : Shape) (pre m : St s), Tick s pre m → mo
   | .tsl e n, pre, m, h, hm => by
       simp only [hasEffect, capture]
       exact list_captured_any (modified e) (valid e) (capture e) (Tick e) (tick_valid e) pre m h hm
+  | .tsld e, pre, m, h, hm => by
+      simp only [hasEffect, capture, trimNone_any]
+      exact dynTick_captured_any (T := Tick e) (tick_valid e) pre m h hm
   | .tsb fs, pre, m, h, hm => tick_hasEffect_aux fs pre m h.1 hm
   | .bnil, _, _, _, hm => by simp [modified] at hm
   | .bcons f r, pre, m, h, hm => by
@@ -592,6 +886,10 @@ theorem tick_observable_aux : ∀ (s : Shape) (pre m : St s), Tick s pre m → m
   | .tsl e n, pre, m, h, hm => by
       simp only [observable, hm, Bool.true_and, capture]
       exact list_captured_any (modified e) (valid e) (capture e) (Tick e) (tick_valid e) pre m h hm
+  | .tsld e, pre, m, h, hm => by
+      simp only [observable, hm, Bool.true_and, capture, trimNone_any, Bool.or_eq_true]
+      right
+      exact dynTick_captured_any (T := Tick e) (tick_valid e) pre m h hm
   | .tsb fs, pre, m, h, hm => tick_observable_aux fs pre m h.1 hm
   | .bnil, _, _, _, hm => by simp [modified] at hm
   | .bcons f r, pre, m, h, hm => by
